@@ -90,6 +90,15 @@ def run(model, rep, tier):
     if not okshift:
         okshift = any(isinstance(lp, ast.For) and unparse(lp.iter) == 'mapping' and pattern.has(lp, '_N_sh += len(_N_r)', _N_r=unparse(lp.target))
                       and pattern.has(lp, '_N_m + _N_sh', 'expr') for lp in walk_local(m2s))
+    # cumulative list built by appending previous + len(remap), then paired with the species by zip
+    if not okshift:
+        for lp in walk_local(m2s):
+            if isinstance(lp, ast.For) and unparse(lp.iter) == 'mapping':
+                for b in pattern.find(lp, '_N_s.append(_N_s[-1] + len(_N_r))', _N_r=unparse(lp.target)):
+                    start0 = pattern.has(m2s, '%s = [0]' % b['_N_s'])
+                    used = any(isinstance(l2, ast.For) and unparse(l2.iter) == 'zip(mapping, %s)' % b['_N_s'] and isinstance(l2.target, ast.Tuple)
+                               and pattern.has(l2, '_N_m + %s' % unparse(l2.target.elts[1]), 'expr') for l2 in walk_local(m2s))
+                    okshift = okshift or (start0 and used)
     rep.ob('trans-layout', mod, m2s, 'mapping indices are offset by the accumulated lengths of the preceding species', okshift,
            '' if okshift else 'per-species indices are not converted to POSCAR line numbers', engine='automake', qual='map2string')
     # ---- Makefile rules
